@@ -387,8 +387,8 @@ def generate(rng, tier):
     planted = [p for p in planted if p[0].startswith(SITE_TAGS)] + [p for p in planted if not p[0].startswith(SITE_TAGS)]
     planted = planted[:(6000 if tier == "quick" else 30000)]
     for j, (tag, data) in enumerate(planted):
-        o = b"st"[j % 2:j % 2 + 1]
-        ch = b"cn"[(j // 2) % 2:(j // 2) % 2 + 1]
+        # (the shapes of the cross-reference chain behind a prefix run in every configuration under C01; here one each)
+        o, ch = b"st"[j % 2:j % 2 + 1], b"cn"[(j // 2) % 2:(j // 2) % 2 + 1]
         yield Case("walk", [o, ch, data], model=False, tags=["planted", tag.split("=")[0][:60]], note=tag)
 
 
